@@ -25,6 +25,7 @@ import (
 	"sync"
 	"sync/atomic"
 	"testing"
+	"time"
 
 	"github.com/EliCDavis/polyform/generator"
 	"github.com/EliCDavis/polyform/generator/graph"
@@ -778,7 +779,7 @@ func runTyped(c TCase, o *vh.Obs) *vh.Failure {
 }
 
 func TestC13(t *testing.T) {
-	vh.Drive(t, vh.Spec[Case]{Name: "histories", Quick: 24000, Thorough: 800000, Gen: genCase, Run: runCase, Repeat: 50})
-	vh.Drive(t, vh.Spec[Case]{Name: "http-histories", Quick: 6000, Thorough: 200000, Gen: genCase, Run: runHTTP, Repeat: 50})
-	vh.Drive(t, vh.Spec[TCase]{Name: "typed-histories", Quick: 12000, Thorough: 400000, Gen: genTyped, Run: runTyped, Repeat: 50})
+	vh.Drive(t, vh.Spec[Case]{Name: "histories", Quick: 24000, Thorough: 800000, Gen: genCase, Run: runCase, Repeat: 50, Deadline: 20 * time.Second})
+	vh.Drive(t, vh.Spec[Case]{Name: "http-histories", Quick: 6000, Thorough: 200000, Gen: genCase, Run: runHTTP, Repeat: 50, Deadline: 20 * time.Second})
+	vh.Drive(t, vh.Spec[TCase]{Name: "typed-histories", Quick: 12000, Thorough: 400000, Gen: genTyped, Run: runTyped, Repeat: 50, Deadline: 20 * time.Second})
 }
